@@ -21,6 +21,18 @@ extern long long hxd_dur_ms(void);
  * returns length, -1 if nothing was spawned; ARGS receives the argv */
 extern long hxd_fire(char *out, size_t outsz, char *args, size_t argsz);
 
+/* the same over a connection that delivers BUF in pieces of CHUNK bytes: per piece what sock_data_cb() does after its
+ * recv() (feed_cmd() + cmd_ical()), then the empty read of the closed connection and shut_cmd(); returns number of tasks held */
+extern int hxd_submit_chunked(const char *buf, size_t len, size_t chunk);
+/* make the task with this UID the one hxd_dur_ms()/hxd_fire() talk about; 0 if the daemon holds it, -1 if not */
+extern int hxd_select(const char *uid);
+/* chkpnt1() of the invoking user's queue into directory DIR (the daemon's queue directory from now on); the text of
+ * the queue file goes to OUT; returns its length, -1 on failure */
+extern long hxd_chkpnt(const char *dir, char *out, size_t outsz);
+/* write TEXT as the invoking user's queue file into DIR and load it with _inject_file() the way a starting daemon does;
+ * returns number of tasks held, -1 on failure */
+extern int hxd_reload(const char *dir, const char *text, size_t len);
+
 struct hx_xres {
 	int n_alarm;		/* calls of alarm() with a non-zero argument */
 	unsigned int alarm_arg;	/* the last of them */
